@@ -654,8 +654,10 @@ pub fn cmd_check(prop: &str, tier: &str) {
         }
     }
     for (class, r) in found.iter() {
-        if r.property == "HARNESS" {
-            harness_errors.push(format!("{}: {}", class, r.msg));
+        if r.property != prop {
+            // HARNESS records, or a record that belongs to another property's check (e.g. a
+            // dispatch that never returned while C01 was being checked)
+            harness_errors.push(format!("{} {}: {}", r.property, class, r.msg));
             continue;
         }
         let small = crate::shrink::minimise(r, 60.0);
